@@ -27,6 +27,10 @@ MEMO_POINTS = {
     pgrammar.Grammar.__init__.__code__: 'lg_create',
     ptok._get_token_collection.__code__: 'tc_lookup',
     ptok._create_token_collection.__code__: 'tc_create',
+    # creation of the per-call parser and the start of its run: each is a full abstract step (a preemption between
+    # them is where state parked on a shared object by the constructor would be overwritten)
+    pparser.BaseParser.__init__.__code__: 'parser_init',
+    pparser.BaseParser.parse.__code__: 'parser_parse',
 }
 PRIVATE_POINTS = {
     pparser.BaseParser._add_token.__code__: 'tok',
